@@ -260,17 +260,25 @@ func buildWorld(f *idp, statsdPort int, addrs, doms []string, po provOpts, mustV
 			AmazonCognitoProviderConfig: auth.AmazonCognitoProviderConfig{OrgURL: "cognito.invalid", UserPoolID: "pool-1", Region: "us-east-1",
 				Credentials: auth.CognitoCredentials{ID: "AKIDEXAMPLE", Secret: "not-a-secret"}}},
 	}
+	// steps of the CODE UNDER TEST: a failure is a broken correspondence (exit 4), not harness trouble
 	if mustValidate {
-		c.Must(cfg.Validate())
+		if err := cfg.Validate(); err != nil {
+			c.SetupFailed("Configuration.Validate rejects a configuration it accepted on the unchanged tree (addresses=%v domains=%v %+v): %v", addrs, doms, po, err)
+			return nil
+		}
 	}
 	sc, err := auth.NewStatsdClient(cfg.MetricsConfig.StatsdConfig.Host, cfg.MetricsConfig.StatsdConfig.Port)
 	c.Must(err)
 	m, err := auth.NewAuthenticatorMux(cfg, sc)
-	c.Must(err)
+	if err != nil {
+		c.SetupFailed("NewAuthenticatorMux failed (addresses=%v domains=%v %+v): %v", addrs, doms, po, err)
+		return nil
+	}
 	ps := auth.VerifC09Providers(m)
 	g, o, cg := ps["google"], ps["okta"], ps["cognito"]
 	if g == nil || o == nil || cg == nil {
-		c.Must(fmt.Errorf("providers not built"))
+		c.SetupFailed("NewAuthenticatorMux did not build the three configured providers (got %d)", len(ps))
+		return nil
 	}
 	cg.Data().RedeemURL = mustURL(f.srv.URL + "/cognito/token")
 	cg.Data().ValidateURL = mustURL(f.srv.URL + "/cognito/userInfo")
@@ -958,7 +966,16 @@ func (w *world) runCallback(f *idp, k cbCase, v int64) (string, string, string, 
 	rec2, _ := w.start(k.Slug, startReq{Method: "GET", OuterOK: true, InnerOK: true, SigOK: true}, inner)
 	n1, n2 := csrfOf(rec1, k.Slug), csrfOf(rec2, k.Slug)
 	if n1 == nil || n2 == nil || rec1.Code != 302 {
-		c.Must(fmt.Errorf("could not start a genuine flow: status %d", rec1.Code))
+		// the code under test refused a well-formed /start: carry on with placeholders, the case is
+		// still judged, and the run ends as a broken correspondence
+		c.SetupFailed("a genuine /start did not yield 302 + CSRF cookie: status %d", rec1.Code)
+		x, y := "no-nonce-1", "no-nonce-2"
+		if n1 == nil {
+			n1 = &x
+		}
+		if n2 == nil {
+			n2 = &y
+		}
 	}
 	loc, _ := url.Parse(rec1.Header().Get("Location"))
 	genuineState := loc.Query().Get("state")
@@ -1231,6 +1248,22 @@ func main() {
 		// rules with letters that have Unicode simple-fold neighbours (s: U+017F, k: U+212A)
 		buildWorld(f, port, []string{"sam@corp.example", "Kim@corp.example"}, nil, p0, true),
 		buildWorld(f, port, nil, []string{"sk.example"}, p0, true),
+	}
+	var firstW *world
+	for _, x := range worlds {
+		if x != nil {
+			firstW = x
+			break
+		}
+	}
+	if firstW == nil { // nothing could be built: report it as a broken correspondence
+		c.Must(c.WriteShards(a.Out, "Corr_C09", nil, a.Shard))
+		return
+	}
+	for i := range worlds {
+		if worlds[i] == nil {
+			worlds[i] = firstW
+		}
 	}
 	east := time.FixedZone("UTC+9", 9*3600)
 	pickW := func() *world {
